@@ -18,6 +18,8 @@ import Hw.Topo.RenderSets
 import Hw.Topo.RenderPU
 import Hw.Topo.RestrictExists
 import Hw.Topo.RestrictAllowed
+import Hw.Topo.RestrictUnique
+import Hw.Topo.HistoryLemmas
 import Hw.Attr.MemAttrsState
 namespace Hw.Props.C08
 open Hw.Topo Hw.Topo.Restrict Hw.Gen.Restrict
@@ -1126,5 +1128,63 @@ example : (match treeOf demoDump with
     provedTopClausesB2.all (fun c =>
       topClause c (afterDump demoMerge 0 ⟨1, false⟩ (flagByNodeset ||| flagRemoveMemless) (fun _ => {}))
         (mkAux (afterDump demoMerge 0 ⟨1, false⟩ (flagByNodeset ||| flagRemoveMemless) (fun _ => {})))) = true := by decide +kernel
+
+/-- (3) the three **uniqueness clauses** pu-osindex-unique, numa-osindex-unique, gp-index-unique: `osUniqueT` (os_index unique among
+    the PUs / NUMA nodes of the tree) holds for the tree of every WF dump and is preserved by every restrict call (restrict creates
+    no object, changes neither type nor os_index, and every object of the result is an object of the input: `cnt_restrict`); gp
+    uniqueness is part of `mergeSafe`; the rendering of a tree that satisfies them satisfies the three WF clauses -/
+theorem C08_restrict_unique (d : Dump) (h : WF d) (t : Tree) (ht : treeOf d = .ok t) :
+    (osUniqueT tPU t ∧ osUniqueT tNUMA t) ∧
+    (∀ (ty : Nat) (T : Topo) (s : CSet) (flags : Nat), osUniqueT ty T.tree → osUniqueT ty (restrict T s flags).1.tree) ∧
+    (∀ (T : Tree) (hd : Hdr) (ex : RObj → Extra),
+      (osUniqueT tPU T → topClause "pu-osindex-unique" (render T hd ex) (mkAux (render T hd ex)) = true) ∧
+      (osUniqueT tNUMA T → topClause "numa-osindex-unique" (render T hd ex) (mkAux (render T hd ex)) = true) ∧
+      (((objsT T).map (·.gp)).Nodup → topClause "gp-index-unique" (render T hd ex) (mkAux (render T hd ex)) = true)) :=
+  ⟨wf_osUnique h t ht, fun ty T s flags hu => osUnique_restrict ty T s flags hu, fun T hd ex => render_unique T hd ex⟩
+
+/-- **C08_restrict_wf_top_partial** — the topology-level half of `WF (afterDump …)`, complete: from `WF d` (a tree could be rebuilt, the
+    API fact on filters) and the coverage of the two allowed sets (`coverT`), for EVERY set and EVERY flag word the rendering of the
+    model's result satisfies EVERY topology-level clause of `WF` (all 18 entries of `topClauses`: the 11 of
+    C08_restrict_from_wf_partial, the 4 of C08_restrict_from_wf_top_partial, the 3 uniqueness clauses).
+    `_partial` with respect to C08_restrict_wf: `coverT` is a hypothesis, `treeOf d = .ok t` is a hypothesis (it does NOT follow from
+    `WF d`: WF does not force parents to precede their children in the object list, which `treeOf` requires), and of the 30
+    object-level clauses 14 are proved (`provedObjClauses`); the set / memory / attribute clauses are still judged by wfCheck. -/
+theorem C08_restrict_wf_top_partial (d : Dump) (h : WF d) (t : Tree) (ht : treeOf d = .ok t)
+    (hf1 : filterOf d.filters tPU ≠ filterKeepStructure) (hf2 : filterOf d.filters tMACHINE ≠ filterKeepStructure)
+    (hcp : coverT (d.allowedCpuset.getD 0) tPU t = true) (hcn : coverT (d.allowedNodeset.getD 0) tNUMA t = true)
+    (s : CSet) (flags : Nat) (ex : RObj → Extra) :
+    let T : Topo := { tree := t, allowedCpu := d.allowedCpuset.getD 0, allowedNode := d.allowedNodeset.getD 0, filters := d.filters }
+    let D := afterDump T d.flags s flags ex
+    ∀ c ∈ topClauses, c.2 D (mkAux D) = true := by
+  intro T D c hc
+  have a := (C08_restrict_from_wf_partial d h t ht hf1 hf2 s flags ex).2.2.1
+  have b := C08_restrict_from_wf_top_partial d h t ht hf1 hf2 hcp hcn s flags ex
+  obtain ⟨_, _, hsafe⟩ := C08_wf_mergeSafe d h t ht (d.allowedCpuset.getD 0) (d.allowedNodeset.getD 0) hf1 hf2
+  obtain ⟨_, hty, _, hr, hleaf, _, _⟩ := wf_treeOf_full h t ht
+  have hu := wf_osUnique h t ht
+  have u := render_unique (restrict T s flags).1.tree
+    ⟨d.flags, (restrict T s flags).1.filters, some (restrict T s flags).1.allowedCpu, some (restrict T s flags).1.allowedNode⟩ ex
+  have u1 := u.1 (osUnique_restrict tPU T s flags hu.1)
+  have u2 := u.2.1 (osUnique_restrict tNUMA T s flags hu.2)
+  have u3 := u.2.2 (restrict_leaf_root T s flags hty hr hleaf hsafe).2.2.1
+  have hname : c.1 ∈ topClauses.map (·.1) := List.mem_map_of_mem hc
+  rw [← Hw.Topo.Hist.topClause_of_mem c hc]
+  have hcases : c.1 ∈ provedTopClauses ∨ c.1 ∈ provedTopClausesB2 ∨ c.1 = "pu-osindex-unique" ∨ c.1 = "numa-osindex-unique" ∨
+      c.1 = "gp-index-unique" := by
+    have hall : ∀ n ∈ topClauses.map (·.1), n ∈ provedTopClauses ∨ n ∈ provedTopClausesB2 ∨ n = "pu-osindex-unique" ∨
+        n = "numa-osindex-unique" ∨ n = "gp-index-unique" := by decide
+    exact hall c.1 hname
+  rcases hcases with h1 | h1 | h1 | h1 | h1
+  · exact a c.1 h1
+  · exact b c.1 h1
+  · rw [h1]; exact u1
+  · rw [h1]; exact u2
+  · rw [h1]; exact u3
+
+/-- non-vacuity: the uniqueness hypotheses hold for demoMerge, and all 18 topology-level clauses hold for the rendering of the result
+    of its call by nodeset with REMOVE_MEMLESS (level merging included) -/
+example : osUniqueT tPU demoMerge.tree ∧ osUniqueT tNUMA demoMerge.tree ∧
+    topClauses.all (fun c => c.2 (afterDump demoMerge 0 ⟨1, false⟩ (flagByNodeset ||| flagRemoveMemless) (fun _ => {}))
+      (mkAux (afterDump demoMerge 0 ⟨1, false⟩ (flagByNodeset ||| flagRemoveMemless) (fun _ => {})))) = true := by decide +kernel
 
 end Hw.Props.C08
